@@ -342,6 +342,8 @@ func emitScenario(w *bufio.Writer, sc *scenario) {
 				}
 			}
 			fmt.Fprintf(w, "OPSNAP %s %s %s %s\n", sc.wid, hx(op.snap.Index), hx(op.snap.Term), optTok(conf))
+		case "reopen":
+			fmt.Fprintf(w, "OPREOPEN %s %s %s\n", sc.wid, hx(op.snap.Index), hx(op.snap.Term))
 		case "cut":
 			fmt.Fprintf(w, "OPCUT %s\n", sc.wid)
 		}
